@@ -192,4 +192,36 @@ example : Lemmas.LockInputsOk 101 [⟨5, some 100, 1500000000⟩, ⟨1 <<< 22 ||
 set_option maxRecDepth 100000 in
 theorem pin_opcodeLengths : Generated.C13.opcodeLengths = (List.range 256).map opLen := by decide
 
+theorem pin_weight_consts :
+    Generated.C13.witnessScaleFactor = (WITNESS_SCALE_FACTOR : Int) ∧ Generated.C13.blockHeaderLen = 80 ∧
+    Generated.C13.maxBlockWeight = 4000000 ∧ Generated.C13.maxBlockSigOpsCost = 80000 := by decide
+
+theorem pin_sigop_consts :
+    Generated.C13.maxPubKeysPerMultiSig = (MAX_PUBKEYS_PER_MULTISIG : Int) ∧
+    Generated.C13.maxPubKeysPerMultiSig = (MaxPubKeysPerMultiSig : Int) ∧
+    Generated.C13.opCheckSig = (OP_CHECKSIG : Int) ∧ Generated.C13.opCheckSigVerify = (OP_CHECKSIGVERIFY : Int) ∧
+    Generated.C13.opCheckMultiSig = (OP_CHECKMULTISIG : Int) ∧
+    Generated.C13.opCheckMultiSigVerify = (OP_CHECKMULTISIGVERIFY : Int) ∧
+    Generated.C13.op1 = (OP_1 : Int) ∧ Generated.C13.op16 = (OP_16 : Int) ∧
+    Generated.C13.opInvalidOpcode = (OP_INVALIDOPCODE : Int) ∧ Generated.C13.opPushData1 = 76 ∧
+    Generated.C13.op1Negate = 0x4f ∧
+    Generated.C13.opHash160 = 0xa9 ∧ Generated.C13.opData20 = 0x14 ∧ Generated.C13.opEqual = 0x87 ∧
+    Generated.C13.payToWitnessPubKeyHashDataSize = 20 ∧ Generated.C13.payToWitnessScriptHashDataSize = 32 ∧
+    Generated.C13.baseSegwitWitnessVersion = 0 ∧ Generated.C13.taprootWitnessVersion = 1 := by decide
+
+theorem pin_locktime_consts :
+    Generated.C13.lockTimeThreshold = (LOCKTIME_THRESHOLD : Int) ∧
+    Generated.C13.maxTxInSequenceNum = (SEQUENCE_FINAL : Int) ∧
+    Generated.C13.sequenceLockTimeDisabled = (SEQ_DISABLE_FLAG : Int) ∧
+    Generated.C13.sequenceLockTimeIsSeconds = (SEQ_TYPE_FLAG : Int) ∧
+    Generated.C13.sequenceLockTimeMask = (SEQ_MASK : Int) ∧
+    Generated.C13.sequenceLockTimeGranularity = (SEQ_GRANULARITY : Int) := by decide
+
+theorem pin_commitment_consts :
+    Generated.C13.coinbaseWitnessDataLen = (CoinbaseWitnessDataLen : Int) ∧
+    Generated.C13.coinbaseWitnessPkScriptLength = (COMMITMENT_MIN_LEN : Int) ∧
+    Generated.C13.coinbaseWitnessPkScriptLength = (CoinbaseWitnessPkScriptLength : Int) ∧
+    Generated.C13.witnessMagicBytes = COMMITMENT_MAGIC.map (fun b => (b.toNat : Int)) ∧
+    COMMITMENT_MAGIC = WitnessMagicBytes := by decide
+
 end BV.C13
